@@ -18,16 +18,17 @@ class SocketConnectionDispatcher(YowConnectionDispatcher):
             logger.error("Already connected?")
 
     def disconnect(self):
-        # the thread in connectAndLoop() resets self.socket as soon as it notices the shutdown
+        # may be called by any thread, also while connectAndLoop() is still connecting: whoever takes self.socket
+        # away (here, or connectAndLoop() when the peer ends the connection) is the one that announces the end
         sock = self.socket
         if sock:
+            self.socket = None
             try:
                 sock.shutdown(socket.SHUT_WR)
-                sock.close()
             except socket.error as e:
                 logger.error(e)
-                self.socket = None
-                self.connectionCallbacks.onDisconnected()
+            sock.close()
+            self.connectionCallbacks.onDisconnected()
         else:
             logger.error("Not connected?")
 
@@ -36,6 +37,8 @@ class SocketConnectionDispatcher(YowConnectionDispatcher):
         self.connectionCallbacks.onConnecting()
         try:
             socket.connect(host)
+            if self.socket is not socket:
+                return  # disconnect() was called while the connect was in progress
             self.connectionCallbacks.onConnected()
             while True:
                 data = socket.recv(1024)
@@ -43,17 +46,24 @@ class SocketConnectionDispatcher(YowConnectionDispatcher):
                     self.connectionCallbacks.onRecvData(data)
                 else:
                     break
-            self.connectionCallbacks.onDisconnected()
+            if self.socket is socket:
+                self.connectionCallbacks.onDisconnected()
         except Exception as e:
             logger.error(e)
-            self.connectionCallbacks.onConnectionError(e)
+            if self.socket is socket:
+                self.connectionCallbacks.onConnectionError(e)
         finally:
-            self.socket = None
+            if self.socket is socket:
+                self.socket = None
             socket.close()
 
     def sendData(self, data):
+        sock = self.socket
+        if sock is None:
+            logger.warn("Attempted to send %d bytes while not connected" % len(data))
+            return
         try:
-            self.socket.send(data)
+            sock.send(data)
         except socket.error as e:
             logger.error(e)
             self.disconnect()
